@@ -3,8 +3,15 @@
 //! Every row-group read used to reopen the file and re-parse the footer
 //! (arrow's `try_new` path): lineitem at SF=10 has ~900 row groups, so a
 //! single scan parsed the same multi-column footer ~900 times. The cache
-//! parses once per (path, mtime) and hands out cheap clones
+//! parses once per (path, file identity) and hands out cheap clones
 //! (`ArrowReaderMetadata` is Arc-backed).
+//!
+//! The identity is more than the modification time: a file can be replaced
+//! by different content with its mtime restored (`cp -p`, `rsync -t`, a
+//! restore from backup) or rewritten twice within the clock's resolution.
+//! A footer cached for the old bytes then points at page offsets that no
+//! longer exist. Length, inode and change time (which no caller can set)
+//! are part of the key, so any replacement re-reads the footer.
 
 use crate::error::Result;
 use parquet::arrow::arrow_reader::{
@@ -15,12 +22,37 @@ use std::fs::File;
 use std::path::{Path, PathBuf};
 use std::time::SystemTime;
 
-static CACHE: parking_lot::RwLock<Option<HashMap<PathBuf, (SystemTime, ArrowReaderMetadata)>>> =
+/// What must be unchanged for a cached footer to still describe the file.
+#[derive(Clone, PartialEq)]
+struct FileId {
+    mtime: SystemTime,
+    len: u64,
+    /// (inode, ctime seconds, ctime nanoseconds); zero off unix.
+    inode_ctime: (u64, i64, i64),
+}
+
+fn file_id(path: &Path) -> std::io::Result<FileId> {
+    let md = std::fs::metadata(path)?;
+    #[cfg(unix)]
+    let inode_ctime = {
+        use std::os::unix::fs::MetadataExt;
+        (md.ino(), md.ctime(), md.ctime_nsec())
+    };
+    #[cfg(not(unix))]
+    let inode_ctime = (0, 0, 0);
+    Ok(FileId {
+        mtime: md.modified()?,
+        len: md.len(),
+        inode_ctime,
+    })
+}
+
+static CACHE: parking_lot::RwLock<Option<HashMap<PathBuf, (FileId, ArrowReaderMetadata)>>> =
     parking_lot::RwLock::new(None);
 
 /// Cached footer metadata for `path` (plain reader options).
 pub fn cached_metadata(path: &Path) -> Result<ArrowReaderMetadata> {
-    let mtime = std::fs::metadata(path)?.modified()?;
+    let mtime = file_id(path)?;
     {
         let guard = CACHE.read();
         if let Some(map) = guard.as_ref() {
@@ -48,7 +80,7 @@ pub fn cached_reader_builder(path: &Path) -> Result<ParquetRecordBatchReaderBuil
 }
 
 static SCHEMA_CACHE: parking_lot::RwLock<
-    Option<HashMap<(PathBuf, usize), (SystemTime, ArrowReaderMetadata)>>,
+    Option<HashMap<(PathBuf, usize), (FileId, ArrowReaderMetadata)>>,
 > = parking_lot::RwLock::new(None);
 
 /// Reader builder with a coercion schema override (e.g. dictionary string
@@ -58,7 +90,7 @@ pub fn cached_reader_builder_with_schema(
     schema: arrow::datatypes::SchemaRef,
 ) -> Result<ParquetRecordBatchReaderBuilder<File>> {
     let key = (path.to_path_buf(), std::sync::Arc::as_ptr(&schema) as usize);
-    let mtime = std::fs::metadata(path)?.modified()?;
+    let mtime = file_id(path)?;
     {
         let guard = SCHEMA_CACHE.read();
         if let Some(map) = guard.as_ref() {
